@@ -432,12 +432,56 @@ def c10(ck):
     ck.cov["families"]["history-ops"]["exhaustive_part"] = "all op sequences of length <= %d over %s for hcap 0..10 (%d cases)" % (depth, alpha, ex_n)
     m = 6000 if thorough else 1200
     ses = [gen.rand_session(rng, 40, api=False) for _ in range(m)]
-    ck.run_family(Family("session-recall", "ses", ses, shrink=core.shrink_ops_line(4), decisive=False,
+    # lines with blanks at the ends, blank-only lines, a line that is a suffix / prefix of the previous one, at boundary history sizes
+    for _ in range(m // 3):
+        ws = []
+        for _ in range(rng.randrange(2, 6)):
+            w = rng.choice([b"ab", b"cd", b"b", b"on", b"set on", "привет".encode(), "say привет".encode(), b"a"])
+            ws.append(rng.choice([b"", b"", b" ", b"  "]) + w + rng.choice([b"", b"", b" ", b"  "]))
+            if rng.randrange(6) == 0:
+                ws.append(b"  ")
+        ops = []
+        for w in ws:
+            ops += ["b:" + gen.hx(w), "b:0d"]
+            if rng.randrange(3) == 0:
+                ops += ["b:" + gen.hx(gen.KEYS["up"])] * rng.randrange(1, 4) + ["b:" + gen.hx(gen.KEYS["down"])] * rng.randrange(0, 3)
+        ses.append("%d %d 1 raw %s" % (rng.choice([16, 32]), rng.choice([4, 6, 7, 8, 12, 16, 32, 64]), ";".join(ops)))
+
+    def hist_entries(field):
+        raw = field.split("/")[0]
+        b = bytes.fromhex(raw) if raw not in (".", "") else b""
+        return b.split(b"\x00")[:-1] if b else []
+
+    def oracle_ses(case, io):
+        """every Enter: the retained entries must be hs_push (extracted HistSpec) of the entries before it and the line as submitted"""
+        st = parse_steps(io)
+        if st is None:
+            return "crash / malformed output: " + io[:300]
+        hcap = case.split(" ")[1]
+        qs, at = [], []
+        for k in range(1, len(st)):
+            if st[k]["sink"].startswith("W0d0a") and st[k]["r"] == "ok":
+                prev = hist_entries(st[k - 1]["hist"])
+                t = st[k - 1]["text"]
+                t = "" if t == "." else t
+                qs.append("%s %s" % (hcap, ";".join(["p:" + gen.hx(e) for e in prev] + ["p:" + t])))
+                at.append(k)
+        if not qs:
+            return None
+        for q, k, res in zip(qs, at, drv_run("histspec", qs)):
+            want = res.split(" ")[-1].split(":")[1]
+            got = ",".join(gen.hx(e) for e in hist_entries(st[k]["hist"])) or "-"
+            if want != got:
+                return "Enter at step %d on line %s: HistSpec.hs_push gives entries [%s], implementation retains [%s]" % (k, st[k - 1]["text"], want, got)
+        return None
+
+    ck.run_family(Family("session-recall", "ses", ses, oracle=oracle_ses, shrink=core.shrink_ops_line(4), decisive=False,
                          project=lambda o: [(s["text"], s["hist"]) for s in (parse_steps(o) or [])] or o,
                          nontrivial=lambda c, o: "1b5b41" in c and "0d" in c))
     return ck.finish(trusted=TB_COMMON, rule="history-ops: every sequence of <= depth operations over push a/b/e-acute/ab, older, newer for history sizes 0..10 plus random "
                      "long sequences with multi-byte and over-long lines; returned line, retained entries (raw buffer projected to the entry list) and position after "
-                     "every op vs the extracted HistSpec; session-recall: random sessions with Up/Down, implementation vs model. non-trivial = push and older both occur")
+                     "every op vs the extracted HistSpec; session-recall: random sessions with Up/Down plus lines with blanks at the ends, blank-only lines and suffix/prefix lines at boundary history sizes; at every Enter the "
+                     "implementation's retained entries vs HistSpec.hs_push of its previous entries and the line as submitted (direct oracle), and implementation vs model. non-trivial = push and older both occur")
 
 
 # ------------------------------------------------------------------ C17 every scalar
@@ -576,6 +620,25 @@ def c06(ck):
     ck.run_family(Family("session-view", "ses", ses, oracle=oracle, shrink=core.shrink_ops_line(4), decisive=False,
                          project=lambda o: [(s["text"], s["cur"], s["p"], s["sink"].replace(",F", "").replace("F,", "")) for s in (parse_steps(o) or [])] or o,
                          nontrivial=lambda c, o: ("w:" in c or ";p:" in c or "1b5b44" in c or "09" in c)))
+    # bounded-exhaustive: EVERY sequence of up to `depth` operations over a 13-letter alphabet at tiny buffer sizes (all interleavings at small scale)
+    import itertools
+    alpha = ["b:68", "b:c3a9", "b:20", "b:" + gen.hx(gen.KEYS["left"]), "b:" + gen.hx(gen.KEYS["right"]), "b:08", "b:" + gen.hx(gen.KEYS["up"]),
+             "b:" + gen.hx(gen.KEYS["down"]), "b:09", "b:0d", "w:s6f0a6b", "w:l", "p:2"]
+    depth = 5 if thorough else 4
+    xses = []
+    for cfg in (["4 7 1 raw", "6 0 3 raw"] if thorough else ["4 7 1 raw"]):
+        for d in range(1, depth + 1):
+            for ops in itertools.product(alpha, repeat=d):
+                xses.append(cfg + " " + ";".join(ops))
+    try:
+        ximpl = core.run_engine(hb, "ses", xses)
+        verdict.update(dict(zip(xses, drv_run("termchk", ximpl))))
+    except Broken as b:
+        ck.broken(b)
+        return ck.finish(trusted=TB_COMMON, rule="build broke")
+    ck.run_family(Family("session-exhaustive-depth%d" % depth, "ses", xses, oracle=oracle, shrink=core.shrink_ops_line(4), decisive=False, exhaustive=False,
+                         project=lambda o: [(s["text"], s["cur"], s["p"], s["sink"].replace(",F", "").replace("F,", "")) for s in (parse_steps(o) or [])] or o,
+                         nontrivial=lambda c, o: True))
     # derived command sets: completion inside the line (prefix of a name, blanks after the cursor, Left moves, Tab, more typing, writes)
     declgen, sets = ensure_decls(ck)
     dses = []
@@ -603,7 +666,8 @@ def c06(ck):
                          nontrivial=lambda c, o: True))
     return ck.finish(trusted=TB_COMMON + ["Spec/Terminal.v: unbounded-width line emulator, width-1 characters, no auto-wrap (as the property's quantifier says)"],
                      rule="random sessions (all keys, Cli::write with split texts, set_prompt, handler output and handler prompt changes, four prompts incl. empty and multi-byte, "
-                     "buffer sizes 0..64) over width-1 characters; after EVERY call the implementation's sink bytes are fed to the extracted emulator and its current row and cursor "
+                     "buffer sizes 0..64) over width-1 characters, plus EVERY operation sequence up to depth 4 (5 in the thorough tier) over a 13-letter alphabet (two characters, blank, arrows, Backspace, "
+                     "Up, Down, Tab, Enter, two writes, set_prompt) at a 4-byte line buffer and 7-byte history; after EVERY call the implementation's sink bytes are fed to the extracted emulator and its current row and cursor "
                      "column are compared with the implementation's own prompt + editor text and cursor (hooks); sink bytes also compared with the model. derived-view: the same on "
                      "generated derived command sets (prefix of a name, blanks after the cursor, Left moves, Tab inside the line, further keys, writes, Enter). non-trivial = "
                      "contains an API write, a prompt change, a cursor move or a completion")
@@ -704,7 +768,7 @@ def c14(ck):
                 for mode in ("once", "perm"):
                     c = " ".join(head) + " " + ";".join(flat[:k - 1] + ["x:%d:%s" % (j, mode), flat[k - 1], "x:off", "b:78", "b:0d"])
                     cases.append(c)
-                    nofault[c] = (st[k - 1]["text"], st[k]["text"], k)
+                    nofault[c] = ((st[k - 1]["text"], st[k - 1]["cur"]), (st[k]["text"], st[k]["cur"]), k)
 
     def oracle(case, io):
         st = parse_steps(io)
@@ -716,8 +780,9 @@ def c14(ck):
             if "XW" in f["sink"] or "XF" in f["sink"]:
                 return "sink call failed during call %d but the call returned Ok (error swallowed); sink calls: %s" % (k, f["sink"])
             return None
-        if f["text"] not in (before, after_ok, "."):
-            return "after the failed call the line is %s: neither as before (%s), nor as the key would have left it (%s), nor empty" % (f["text"], before, after_ok)
+        if (f["text"], f["cur"]) not in (before, after_ok, (".", "0")):
+            return "after the failed call the line is %s with the cursor at %s: neither as before (%s at %s), nor as the key would have left it (%s at %s), nor empty" % (
+                f["text"], f["cur"], before[0], before[1], after_ok[0], after_ok[1])
         # later: typing x and Enter with a working sink dispatches only typed text
         last = st[-1]
         if last["r"] != "ok":
@@ -735,8 +800,8 @@ def c14(ck):
                          nontrivial=lambda c, o: "err" in o, exhaustive=True))
     return ck.finish(level="proof", trusted=TB_COMMON, rule="for every scenario of the corpus (typing, editing, recall, completion, quoted arguments, handler output of several kinds, "
                      "prompt change, Cli::write, set_prompt, help, help <cmd>, -h, tight buffers) and random short sessions: EVERY sink call of EVERY step fails once / permanently, "
-                     "then `x` Enter with a working sink. Oracle on the implementation: the call returns Err iff a sink call failed in it; the line afterwards is as before / as the key "
-                     "would have left it (from the fault-free run of the implementation itself) / empty; the later Enter succeeds. Result, line and later dispatches also compared with the model. "
+                     "then `x` Enter with a working sink. Oracle on the implementation: the call returns Err iff a sink call failed in it; the line AND its cursor afterwards are as before / as the key "
+                     "would have left them (from the fault-free run of the implementation itself) / empty; the later Enter succeeds. Result, line and later dispatches also compared with the model. "
                      "non-trivial = some call returned Err")
 
 
